@@ -21,7 +21,9 @@ instance the driver runs as well as for exact arithmetic; no law of arithmetic i
 definitions of core/operators.py at each node (pointwise `+ - * / ^ < >` with the NaN-on-zero rule of
 `Divider`, number∘feature and feature∘number forms, `I D D2 ABS SQRT LOG DIODE SIGN EXP COS SIN TAN`,
 `SUM AVG VAR STD MSE RMSE MAD MIN MAX MEDIAN ARGMIN ARGMAX`); it has no stack, no temporaries and no parser.
-The theorems cover both directions (value: T1–T5, error: T6) and start from the string the user types (T7). -/
+The theorems cover both directions (value: T1–T5, error: T6) and start from the string the user types (T7, with the
+`'` shorthand: T11, and a sign typed directly after a binary `+` / `-`: T12). T8–T10 relate definitions as coded to their
+documented formulas: `MIN` / `MAX` (T8), `ARGMIN` / `ARGMAX` (T9, T9'), `D` / `I` / `D2` (T10). -/
 namespace TV.C02
 open TV.Expr TV.Rpn
 
